@@ -32,7 +32,7 @@ func init() {
 			"oracle: documented sentinel error (either when two rules apply), full observation identical before/after; valid boundary inputs (+-MaxIndexable, its inner neighbours, -0, weight 0 and -0) accepted; constructors over finite parameters return an error or a usable object, never (nil,nil). " +
 			"Non-trivial = non-empty sketch state and >=10 refused calls; distinct = hash of state and calls.",
 		Cases:     core.Scale(40000, 1000000),
-		Mandatory: []string{"oracle.refused_calls", "oracle.state_unchanged", "oracle.accepted_boundary", "oracle.constructor_checks", "refused.nan_quantile", "refused.zero_weight_invalid_value_exact", "refused.merge_mismatch", "refused.merge_mismatch_empty_argument", "constructor.tiny_accuracy", "state.all_weights_underflowed", "refused.merge_mismatch_coarse_mappings", "refused.store_level_reweight", "oracle.refusal_independent_of_history", "refused.merge_after_accepted_near_twin"},
+		Mandatory: []string{"oracle.refused_calls", "oracle.state_unchanged", "oracle.accepted_boundary", "oracle.constructor_checks", "refused.nan_quantile", "refused.zero_weight_invalid_value_exact", "refused.merge_mismatch", "refused.merge_mismatch_empty_argument", "constructor.tiny_accuracy", "state.all_weights_underflowed", "refused.merge_mismatch_coarse_mappings", "refused.store_level_reweight", "oracle.refusal_independent_of_history", "refused.merge_after_accepted_near_twin", "state.mapping_replaced_by_near_twin"},
 		Run:       runC13,
 	})
 }
@@ -542,6 +542,34 @@ func runC13(c *core.Ctx) {
 		c.Logf("Reweight(2^-1000) twice: count %v", k.GetCount())
 		if weightless {
 			c.Count("state.all_weights_underflowed", 1)
+		}
+	}
+	if r.P(0.25) && !weightless && !(exact && k.GetCount() == 0 && !s.P.IsEmpty()) {
+		// the sketch decodes a stream whose mapping equals its own within the tolerance of Equals but not bit for bit:
+		// it carries that mapping from now on (IndexMapping is a public field), and the limits that decide which
+		// values are refused are those of the mapping it carries
+		for kk := 1; kk <= 3; kk++ {
+			g2 := m.Gamma * (1 + float64(kk*(1-2*r.Intn(2)))*0x1p-43)
+			cand, err := gen.NewMapGamma(m.Kind, g2, m.Offset)
+			if err != nil || !cand.M.Equals(m.M) || !m.M.Equals(cand.M) || cand.Gamma == m.Gamma {
+				continue
+			}
+			t := mon.NewSketch(exact, cand.M, gen.RandPlainStore(r))
+			var e []byte
+			var derr error
+			if c.Guard("DecodeAndMergeWith(near twin)", func() { t.I().Encode(&e, false); derr = k.DecodeAndMergeWith(e) }) {
+				return
+			}
+			if derr != nil {
+				c.Failf("op.error:DecodeAndMergeWith", "decoding the encoding of an empty sketch with an equal mapping (%s into %s): %v", cand.Desc, m.Desc, derr)
+				return
+			}
+			if s.P.IndexMapping.MaxIndexableValue() == cand.Max && s.P.IndexMapping.MinIndexableValue() == cand.Min {
+				m = cand
+				c.Count("state.mapping_replaced_by_near_twin", 1)
+				c.Logf("the sketch now carries %s", cand.Desc)
+			}
+			break
 		}
 	}
 	empty := k.IsEmpty() || weightless
